@@ -63,10 +63,14 @@ class Session:
             if p in self.reg:
                 ops.append(['unreg', p])
                 ops.append(['reg', p, 'h'])      # occupied: must fail and change nothing
+                ops.append(['regp', p, 'h'])     # ... also through the entry point that has no DBusError
+                ops.append(['regfbp', p, 'd'])
             else:
                 for b in ('h', 'd'):
                     ops.append(['reg', p, b])
                     ops.append(['regfb', p, b])
+                ops.append(['regp', p, 'h'])     # dbus_connection_register_object_path / _fallback (no DBusError)
+                ops.append(['regfbp', p, 'd'])
         return ops
 
     # ---- model -------------------------------------------------------------
@@ -141,6 +145,14 @@ class Session:
             want = self.expected_children(p)
             if got != want:
                 out.append(Violation('child-listing', 'list_registered', '%s: children of %s = %r, model %r (registered: %r)' % (opdesc, p, got, want, self.reg), None))
+        # what is registered at exactly a path, as dbus_connection_get_object_path_data() reports it
+        for p in self.paths + ['/zz', '/a/b/c/d']:
+            r = self.h.cmd('DATA ' + p)
+            want = 'OK -'
+            if p in self.reg:
+                want = 'OK %s:%s:%s' % (p, 'fb' if self.reg[p][0] else 'ex', 'h' if self.reg[p][1] else 'd')
+            if r != want:
+                out.append(Violation('tree-differs', 'object-path-data', '%s: get_object_path_data(%s) = %r, model %r (registered: %r)' % (opdesc, p, r, want, self.reg), None))
 
     def around(self, op, out):
         """The same path dispatched immediately before and immediately after the operation (nothing in between), for the
@@ -148,6 +160,8 @@ class Session:
         candidate also sees the inverse operation between two dispatches.  Whatever the tree remembers from one dispatch
         must not outlive a change of the registrations."""
         kind, p = op[0], op[1]
+        if kind in ('regp', 'regfbp'):
+            return         # same transitions as reg/regfb, which are probed around
         if kind in ('reg', 'regfb') and p in self.reg:
             return
         cands = [p] + [q for q in PROBE_PATHS if q != p and (q.startswith(p + '/') or p == '/')]
@@ -182,14 +196,16 @@ class Session:
         self.around(op, out)
         if [v for v in out if not v.resynced]:
             return out
-        if kind in ('reg', 'regfb'):
-            r = self.h.cmd('%s %s %s' % ('REG' if kind == 'reg' else 'REGFB', p, op[2]))
+        if kind in ('reg', 'regfb', 'regp', 'regfbp'):
+            plain = kind.endswith('p')
+            kind = kind[:-1] if plain else kind
+            r = self.h.cmd('%s %s %s%s' % ('REG' if kind == 'reg' else 'REGFB', p, op[2], ' plain' if plain else ''))
             if p in self.reg:
-                self.hit('register-occupied')
-                if not r.startswith('ERR org.freedesktop.DBus.Error.ObjectPathInUse'):
+                self.hit('register-occupied' + ('-plain' if plain else ''))
+                if not r.startswith('ERR plain.Failed' if plain else 'ERR org.freedesktop.DBus.Error.ObjectPathInUse'):
                     out.append(Violation('occupied-register', 'result', '%r on an occupied path answered %r' % (op, r), None))
             else:
-                self.hit('register')
+                self.hit('register' + ('-plain' if plain else ''))
                 if not r.startswith('OK'):
                     out.append(Violation('register-failed', 'result', '%r answered %r' % (op, r), None))
                 else:
@@ -200,9 +216,10 @@ class Session:
             if not r.startswith('OK') or ('u:%s;' % p) not in r:
                 out.append(Violation('unregister-failed', 'result', '%r answered %r' % (op, r), None))
             self.reg.pop(p, None)
-        if not out:
+        # (recorded findings that do not change the state - resynced - must not switch the remaining checks off)
+        if not [v for v in out if not v.resynced]:
             self.check_tree(out, repr(op))
-        if not out:
+        if not [v for v in out if not v.resynced]:
             self.probe(out, repr(op))
         seen = set()
         out = [v for v in out if not (v.resynced and (v.fingerprint in seen or seen.add(v.fingerprint)))]
